@@ -430,7 +430,12 @@ func checkC05(P *Program, r *Result, tier string) {
 			parked := false
 			for _, ps := range storesTo(fn, "pendingBuf") {
 				if !instrDominates(ps, st) {
-					continue
+					// … or the parking follows on every way out (buf installed first, old buffer parked next)
+					ps2 := ps
+					leak, _ := exitsWithout(st, func(in ssa.Instruction) bool { return in == ssa.Instruction(ps2) })
+					if !instrDominates(st, ps) || leak {
+						continue
+					}
 				}
 				ap := builtinCall(ps.Val, "append")
 				if ap == nil || !isLoadOfField(fn, ap.Common().Args[0], "pendingBuf") {
